@@ -21,6 +21,16 @@ CREATE OR REPLACE MACRO vtl_period_limit(indicator VARCHAR) AS (
     END
 );
 
+-- Number of periods of an indicator in a given year: ISO years have 52 or 53 weeks,
+-- calendar years 365 or 366 days (28 December always lies in the last ISO week).
+CREATE OR REPLACE MACRO vtl_period_limit_in_year(indicator VARCHAR, y) AS (
+    CASE indicator
+        WHEN 'W' THEN WEEK(MAKE_DATE(y, 12, 28))
+        WHEN 'D' THEN DAYOFYEAR(MAKE_DATE(y, 12, 31))
+        ELSE vtl_period_limit(indicator)
+    END
+);
+
 -- TimePeriod → end DATE
 CREATE OR REPLACE MACRO vtl_tp_end_date(p vtl_time_period) AS (
     CASE p.period_indicator
